@@ -108,7 +108,9 @@ def c10(ck):
 _NAMES = [b"", b"a", b"worker", b"0123456789abcde", "café".encode(), "线程-7".encode(), b"two words", b" lead", b"trail ", b"tab\there",
           "\U0001f600x".encode(), b"\xff\xfe bad", b"\xc3(", b"Web Content",
           # control characters the kernel reports unescaped in comm: embedded / trailing / only newline, carriage return, NUL-free binary
-          b"two\nlines", b"carriage\r", b"nl\n", b"\n", b"\r\n", b"a\rb", b"\x01\x7f", b"form\x0cfeed", b"v\x0btab"]
+          b"two\nlines", b"carriage\r", b"nl\n", b"\n", b"\r\n", b"a\rb", b"\x01\x7f", b"form\x0cfeed", b"v\x0btab",
+          # the longest possible names (15 bytes; comm then holds 16 with the kernel's newline) ending in a byte that looks like a terminator
+          b"fourteen-bytes\n", b"fourteen-bytes\r", b"fourteen-bytes ", b"thirteen-byte\n\n", "fourteen-byt\u00e9".encode()[:15]]
 
 
 def _names_scenarios(quick, seed):
@@ -280,6 +282,12 @@ def _softerr_scenarios(quick, seed):
     scns.append({"id": "direct-auxv-complete+fill-failpoint", "target": dumps.base_target(1), "writer": {"blamed": "main", "direct_auxv": {"phnum": 1, "phdr": "0x1000", "gate": "0x2000", "entry": "0x3000"}},
                  "faults": {"failspots": ["FillMissingAuxvInfo"]}, "expect": {"dsoFail": True}})
     scns.append({"id": "no-dt-debug", "target": {"threads": [], "linker_chain": {"names": ["/lib/a.so"], "no_debug": True}}, "writer": {"blamed": "main", "direct_auxv": "linker_chain"}, "expect": {"dsoFail": True}})
+    # a linker list with an object name that is not UTF-8 (legal on Linux): the linker-data step fails with that particular error,
+    # alone and together with other failures - the report must still be there and complete
+    nonutf8 = {"names_hex": ["", "2f6c69622fffc328", "2f6c69622f6f6b"]}
+    scns.append({"id": "dso-name-not-utf8", "target": {"threads": [], "linker_chain": nonutf8}, "writer": {"blamed": "main", "direct_auxv": "linker_chain"}, "expect": {"dsoFail": True}})
+    scns.append({"id": "dso-name-not-utf8+failpoints", "target": {"threads": [{"mode": "pause", "stack_pages": 1, "sp_off": 64}], "linker_chain": nonutf8}, "writer": {"blamed": "main", "direct_auxv": "linker_chain"},
+                 "faults": {"failspots": ["StopProcess", "CpuInfoFileOpen", "ThreadName"]}, "expect": {"dsoFail": True}})
     # files the writer copies made unreadable for the dump worker (private mount namespace): every single one, every pair (thorough:
     # every subset), with the auxiliary values supplied by the caller or to be completed from the (possibly unreadable) file
     import random
@@ -734,6 +742,17 @@ def _skip_scenarios(quick, seed):
             threads.append(t)
         w = {"blamed": {"slot": 1}, "skip": True, "principal": {"region": "prin", "off": 4000}, "size_limit": lim, "sanitize": san}
         scns.append({"id": f"skip/limit{lim}/{'sanitize' if san else 'plain'}", "target": {"threads": threads, "regions": [{"name": "prin", "len": 8192, "exec": True}]}, "writer": w})
+    # the principal mapping is DATA (not executable) and stacks are sanitised: the reference test is about the target's stack, not
+    # about the copy after pointers into non-executable mappings have been defaced
+    for san in (True, False):
+        threads = []
+        for i in range(8):
+            t = {"mode": "pause", "stack_pages": 1 + i % 2, "sp_off": [0x100, 0x900, 0x7f8][i % 3]}
+            if i % 2 == 0:
+                t["words"] = [[8 * (i % 5), {"region": "prin", "off": 128 + 8 * i}]]
+            threads.append(t)
+        w = {"blamed": {"slot": 0}, "skip": True, "principal": {"region": "prin", "off": 40}, "sanitize": san, "crash_context": {"sp": {"thread_sp": 0}, "ip": "0x5000"}}
+        scns.append({"id": f"skip/data-principal/{'sanitize' if san else 'plain'}", "target": {"threads": threads, "regions": [{"name": "prin", "len": 8192, "exec": False}]}, "writer": w})
     scns.append({"id": "skip/no-mapping", "target": dumps.base_target(3), "writer": {"blamed": "main", "skip": True, "principal": "0x6000"}})
     return scns
 
